@@ -20,11 +20,16 @@
 
 /* ---- the transfer loops ---------------------------------------------------
  * q: the queue of that direction, ACTIVE(c): the function may touch the descriptor */
-#define VP_XFER_CONTRACT(fn, T, q, ACTIVE)                                                          \
+#define VP_XFER_CONTRACT(fn, T, q, oq, ACTIVE)                                                         \
 static void fn(T *c)                                                                                \
 __CPROVER_requires(__CPROVER_is_fresh(c, sizeof(*c)) && VP_ENV_PRE(c) && g_q_objects && !g_cx_member) \
 __CPROVER_requires(VP_Q_OBJ_PRE(q) && ((q).s.n > 0 || !(q).s.orig))                                     \
+/* an aio waits in at most one queue: whoever heads the other queue is somebody else */             \
+__CPROVER_requires((oq).s.n == 0 || (VP_QHEAD(oq) != (q).first && VP_QHEAD(oq) != (q).later))       \
 __CPROVER_assigns(ACTIVE(c) && (q).s.n > 0: VP_XFER_GHOSTS, VP_Q_TARGETS(q))                          \
+/* the records of nni_aio_start and of the poller (fields of the same ghost object) are not touched */ \
+__CPROVER_ensures(DLT(g_start_calls) == 0 && DLT(g_arm_calls) == 0 && DLT(g_pfd_close_calls) == 0 && DLT(g_pfd_stop_calls) == 0 && DLT(g_dialcb_calls) == 0) \
+__CPROVER_ensures(g_start_aio == OLD(g_start_aio) && g_start_fn == OLD(g_start_fn) && g_start_arg == OLD(g_start_arg) && g_arm_events == OLD(g_arm_events) && g_arm_pfd == OLD(g_arm_pfd)) \
 /* closed connection (or no descriptor): nothing is touched */                                     \
 __CPROVER_ensures(!ACTIVE(c) ==> (VP_NO_SYSCALL && VP_NO_FIN && (q).s.n == OLD((q).s.n)))               \
 /* C02: whoever left the queue was completed exactly once; nobody was dropped or completed twice */ \
@@ -57,6 +62,7 @@ __CPROVER_requires(__CPROVER_is_fresh(arg, sizeof(T)) && VP_ENV_PRE((T *) arg) &
 __CPROVER_requires(__CPROVER_is_fresh(g_rq.later, sizeof(nni_aio)) && __CPROVER_is_fresh(g_wq.later, sizeof(nni_aio))) \
 __CPROVER_assigns(g_sys, g_rq.s, g_wq.s, VP_SYNC_GHOSTS, VP_LATER_T(g_rq.later), VP_LATER_T(g_wq.later)) \
 __CPROVER_ensures(VP_ALL_DONE(err) && VP_NO_SYSCALL && VP_NO_LOCK_HELD && DLT(g_pfd_close_calls) == 1) \
+__CPROVER_ensures(DLT(g_start_calls) == 0 && DLT(g_arm_calls) == 0 && DLT(g_dialcb_calls) == 0) \
 ;
 #define VP_CLOSE_CONTRACT(fn, T)                                                                    \
 static void fn(void *arg)                                                                           \
@@ -149,8 +155,8 @@ __CPROVER_ensures((!DIALING((T *) arg) && (events & VP_BADEV) == 0 && (((T *) ar
 #define VP_TCP_ACTIVE(c) (!(c)->closed)
 #define VP_IPC_ACTIVE(c) (!(c)->closed && g_pfd_fd >= 0)
 #ifdef VP_M_TCP
-VP_XFER_CONTRACT(tcp_dowrite, nni_tcp_conn, g_wq, VP_TCP_ACTIVE)
-VP_XFER_CONTRACT(tcp_doread, nni_tcp_conn, g_rq, VP_TCP_ACTIVE)
+VP_XFER_CONTRACT(tcp_dowrite, nni_tcp_conn, g_wq, g_rq, VP_TCP_ACTIVE)
+VP_XFER_CONTRACT(tcp_doread, nni_tcp_conn, g_rq, g_wq, VP_TCP_ACTIVE)
 VP_ERROR_CONTRACT(tcp_error, nni_tcp_conn)
 VP_CLOSE_CONTRACT(tcp_close, nni_tcp_conn)
 VP_CANCEL_CONTRACT(tcp_cancel, nni_tcp_conn)
@@ -161,8 +167,8 @@ VP_CB_CONTRACT(tcp_cb, nni_tcp_conn, VP_TCP_DIALING)
 #ifdef VP_M_IPC
 /* posix_ipcconn.c: same functions; the transfer loops additionally do nothing when the poller
  * reports no descriptor (fd < 0) */
-VP_XFER_CONTRACT(ipc_dowrite, ipc_conn, g_wq, VP_IPC_ACTIVE)
-VP_XFER_CONTRACT(ipc_doread, ipc_conn, g_rq, VP_IPC_ACTIVE)
+VP_XFER_CONTRACT(ipc_dowrite, ipc_conn, g_wq, g_rq, VP_IPC_ACTIVE)
+VP_XFER_CONTRACT(ipc_doread, ipc_conn, g_rq, g_wq, VP_IPC_ACTIVE)
 VP_ERROR_CONTRACT(ipc_error, ipc_conn)
 VP_CLOSE_CONTRACT(ipc_close, ipc_conn)
 VP_CANCEL_CONTRACT(ipc_cancel, ipc_conn)
@@ -173,8 +179,8 @@ VP_CB_CONTRACT(ipc_cb, ipc_conn, VP_TCP_DIALING)
 #ifdef VP_M_SFD
 /* posix_sockfd.c: the descriptor is the field c->fd (bound to the ghost descriptor by the
  * precondition); no dialing state; send/recv rely on nng_stream_send/recv for nni_aio_reset */
-VP_XFER_CONTRACT(sfd_dowrite, nni_sfd_conn, g_wq, VP_TCP_ACTIVE)
-VP_XFER_CONTRACT(sfd_doread, nni_sfd_conn, g_rq, VP_TCP_ACTIVE)
+VP_XFER_CONTRACT(sfd_dowrite, nni_sfd_conn, g_wq, g_rq, VP_TCP_ACTIVE)
+VP_XFER_CONTRACT(sfd_doread, nni_sfd_conn, g_rq, g_wq, VP_TCP_ACTIVE)
 VP_ERROR_CONTRACT(sfd_error, nni_sfd_conn)
 VP_CLOSE_CONTRACT(sfd_close, nni_sfd_conn)
 VP_CANCEL_CONTRACT(sfd_cancel, nni_sfd_conn)
